@@ -68,8 +68,10 @@ func (r *Report) Floor(rule string, got, min int) {
 	}
 }
 
-func (r *Report) Note(format string, a ...any)   { r.Notes = append(r.Notes, fmt.Sprintf(format, a...)) }
-func (r *Report) Assumes(format string, a ...any) { r.Assume = append(r.Assume, fmt.Sprintf(format, a...)) }
+func (r *Report) Note(format string, a ...any) { r.Notes = append(r.Notes, fmt.Sprintf(format, a...)) }
+func (r *Report) Assumes(format string, a ...any) {
+	r.Assume = append(r.Assume, fmt.Sprintf(format, a...))
+}
 func (r *Report) Saw(f *Func) {
 	if f != nil {
 		r.FuncsSeen[f.Name] = true
